@@ -2,6 +2,7 @@
 import ecount
 import ebin
 import ehdr
+import eterm
 import edddmp
 import etaint
 import elin
@@ -77,6 +78,9 @@ def run(ctx):
     ctx.floor("E-DDDMP.strictmode", "error creations in the exporter", ns, 4)
     nr = ebin.check_node_records(ctx, F)
     ctx.floor("E-DDDMP.noderec", "node-record checks", nr, 25)
+    ctx.explain("E-NUM.terminals: the terminal text the exporter writes (AsciiDisplay of F64 / I64: NaN, -INF / -Inf, +INF / +Inf, numbers) "
+                "is read back by ParseTagged::parse as the same value.")
+    eterm.run(ctx, F)
     nh = ehdr.run(ctx, F)
     ctx.floor("E-DDDMP.header", "model headers interpreted", nh, 34)
     ctx.explain("E-COUNT.underflow: no unsigned local that starts at the literal 0 is only ever decremented (it would underflow at its "
